@@ -16,11 +16,16 @@
  * By induction over the writes: the sequence of blocks handed to the compression function, and the
  * final tail, depend only on the concatenated stream, not on how it was split (h_write2 checks the
  * two-write instance on the real code directly). */
+#define VERIF_MEMCPY_MODEL
 #include "hash_spec.h"
+#define memcpy verif_memcpy64
 #include "src/secp256k1.c"
+#undef memcpy
 #include "post.h"
 
-#define MAXLEN ((size_t)1 << 48)   /* objects are <= 2^52 bytes under --object-bits 12 (trusted base) */
+#ifndef MAXLEN
+#define MAXLEN ((size_t)1 << 48)
+#endif   /* objects are <= 2^52 bytes under --object-bits 12 (trusted base) */
 
 void h_write(void) {
     INPUT(uint64_t, b0); INPUT(size_t, len); INPUT_ARR(unsigned char, buf0, 64);
@@ -38,7 +43,6 @@ void h_write(void) {
     COMPLOG_RESET(); g_cw_blk = wblk; g_cw_off = woff;
 
     secp256k1_sha256_write(&hc, &h, data, len);
-    WITNESS_BUF(dataw, data, len, 64);
 
     b1 = b0 + len; nb = b1 / 64 - b0 / 64;
     __CPROVER_assert(h.bytes == b1, "C05 sha256_write (a): bytes' = bytes + len");
@@ -90,7 +94,6 @@ void h_write2(void) {
 
     COMPLOG_RESET(); g_cw_blk = wblk; g_cw_off = woff;
     secp256k1_sha256_write(&hc, &h2, d, la + lb);
-    WITNESS_BUF(dw, d, la + lb, 64);
 
     __CPROVER_assert(h1.bytes == h2.bytes, "C05 sha256_write split lemma: same byte count");
     __CPROVER_assert(blocks1 == g_c_blocks, "C05 sha256_write split lemma: same number of blocks compressed");
